@@ -2,12 +2,12 @@ def obligations(tier):
     T = tier == "thorough"
     md = 6 if T else 4
     obs = []
-    obs.append(dict(name="dispatch-order-progress-status", harness="dispatch.c", entry="h_run", defs=["MAXD=%d" % md], unwind=70, unwindset=["events_run_internal#0:%d" % (md + 2), "events_run_internal#1:%d" % (md + 3)],
+    obs.append(dict(name="dispatch-order-progress-status", harness="dispatch.c", entry="h_run", defs=["MAXD=%d" % md], unwind=12, unwindset=["events_run_internal#0:%d" % (md + 2), "events_run_internal#1:%d" % (md + 3)],
                     replace=["mpool_eventrec_malloc:vh_rec_malloc", "mpool_eventrec_free:vh_rec_free"], backends=["cadical"], timeout=1800 if T else 280,
                     claim="events_run over an abstract scheduler: immediate > socket > (re-poll) > timer at every choice; every record taken is dispatched at once; runnable at entry => >= 1 callback and no blocking poll; the blocking poll gets exactly the timer minimum; first non-zero status returned unchanged and nothing dispatched after it; interrupt stops after the current callback with 0 and the flag is cleared",
                     bounds="<= %d dispatched callbacks per run; any interleaving of source answers, statuses, interrupt requests; one internal source failure" % md,
                     stubs=["events_immediate_get/network_get/network_select/timer_min/timer_get -> nondeterministic abstract scheduler with scalar monitors", "mpool_eventrec_malloc/free -> tracked 8-record pool"]))
-    obs.append(dict(name="spin-status-interrupt", harness="dispatch.c", entry="h_spin", defs=["MAXD=%d" % (md - 2)], unwind=70, unwindset=["events_run_internal#0:%d" % (md + 2), "events_run_internal#1:%d" % (md + 3), "libcperciva_events_spin#0:%d" % (md + 6)],
+    obs.append(dict(name="spin-status-interrupt", harness="dispatch.c", entry="h_spin", defs=["MAXD=%d" % (md - 2)], unwind=12, unwindset=["events_run_internal#0:%d" % (md + 2), "events_run_internal#1:%d" % (md + 3), "libcperciva_events_spin#0:%d" % (md + 6)],
                     replace=["mpool_eventrec_malloc:vh_rec_malloc", "mpool_eventrec_free:vh_rec_free"], backends=["cadical"], timeout=1800 if T else 280, claim="events_spin: stops on the first non-zero status (returned unchanged) or interrupt or when the completion flag is set; flag cleared", bounds="<= %d callbacks, <= 3 runs" % (md - 2), stubs=["abstract scheduler"]))
     return obs
 TRUSTED = ["CBMC 6.11 C semantics", "cadical"]
